@@ -12,7 +12,7 @@ CHECKS = {
  "C03": ("exploration", "structural source-map monitor over (normalised lines, tokens, env) on every parse",
          "Held on the documents observed, except the recorded known finding (Unicode-whitespace trimming).",
          "line numbering is that of the documented normalisation (cross-checked by C17)"),
- "C04": ("exploration", "strict total lexer for the renderer's own HTML language run on every html=False render",
+ "C04": ("exploration", "strict total lexer for the renderer's own HTML language run on every html=False render, incl. fresh html-off preset instances after per-process instance histories",
          "Held on the renders observed; scanner accepts only the renderer's vocabulary so any foreign markup is a violation.",
          "scanner vocabulary = tags/attributes RendererHTML can produce; default renderer, no highlight callback"),
  "C05": ("exploration", "URL predicate monitor on link_open/image tokens and href/src attributes + literal-text twin for rejected destinations",
@@ -36,7 +36,7 @@ CHECKS = {
          "Held on the schedules observed (single and sampled double pre-emptions); sequential spec = solo result.", "mdurl caches warmed first; pre-emption at line granularity (instruction granularity inside shared-write functions)"),
  "C14": ("fault_enumeration", "fault injection at every invocation of every user callback (rules in all chains, render rules, highlight) x exception types, post-state compared with a twin; reset_rules exit paths enumerated",
          "Every crash point of each sampled document is enumerated; held on those.", "twin instance has same plug-ins, disarmed"),
- "C15": ("exploration", "direct monitors: as_dict/from_dict round trip (4 parameter combinations), tree round trip and link consistency, double render",
+ "C15": ("exploration", "direct monitors: as_dict/from_dict round trip (4 parameter combinations), tree round trip and link consistency, double render, re-render of an equal stream on a renderer object made at that moment",
          "Held on the streams observed by shape class.", "token equality = dataclass equality"),
  "C16": ("exploration", "twin executions (seeded env vs prepended definitions; reference vs inline form) + exactly-once accounting of definition events",
          "Held on the cases observed.", "label equivalence oracle = casefold + blank collapse"),
